@@ -113,6 +113,12 @@ FUNCS = [
     ("BRSolver.__init__", "qutip/solver/brmesolve.py", "BRSolver.__init__", ["self"], None),
     ("brmesolve", "qutip/solver/brmesolve.py", "brmesolve", ["kwargs"], None),
     ("krylovsolve", "qutip/solver/krylovsolve.py", "krylovsolve", [], None),
+    # the scipy integrators' callback: reshapes a *new* Dense wrapper around
+    # scipy's vector in place, never the caller's object
+    ("IntegratorScipyAdams._mul_np_vec", "qutip/solver/integrator/scipy_integrator.py",
+     "IntegratorScipyAdams._mul_np_vec", [], None),
+    ("IntegratorScipyDop853._mul_np_vec", "qutip/solver/integrator/scipy_integrator.py",
+     "IntegratorScipyDop853._mul_np_vec", [], None),
     # ---- third wave: solver-level entry points
     ("steadystate", "qutip/solver/steadystate.py", "steadystate", ["kwargs"], None),
     ("_permute_wbm", "qutip/solver/steadystate.py", "_permute_wbm", [], None),
@@ -216,6 +222,9 @@ SUMMARIES = {
     "warnings.warn": S(), "np.*": S(), "numbers.*": S(), "itertools.product": S(),
     "_data.*": S(probe="data_fresh"), "scipy.*": S(),
     "_data.INPLACE": S(mut=[(0, ALL)], ret=("arg", 0), probe="data_inplace"),
+    "column_stack_dense": S(mut=[(0, ["shape"])], ret=("arg", 0), probe="reshape_kernels"),
+    "column_unstack_dense": S(mut=[(0, ["shape"])], ret=("arg", 0), probe="reshape_kernels"),
+    ".matmul_data": S(probe="matmul_data_pure"), ".ravel": S(ret=("arg", 0)), ".view": S(ret=("arg", 0)),
     "Dimensions": S(), "qeye": S(), "qutip.qeye": S(), "qutip.qeye_like": S(),
     "qutip.tensor": S(),
     "spre": S(probe="spre_fresh"), "spost": S(probe="spre_fresh"),
@@ -354,6 +363,9 @@ def _strip_cython(src):
     """Turn the Python-like subset of a .pyx method into Python."""
     out = []
     for line in src.split("\n"):
+        if re.match(r"\s*cdef\s+[\w ]+?\s+\w+\(", line):
+            out.append(line)            # a cdef function header, handled below
+            continue
         if re.match(r"\s*cdef\s+[\w\[\], .*]+?(\s*=.*)?$", line) and "(" not in line.split("=")[0]:
             m = re.match(r"(\s*)cdef\s+[\w.]+\s+(\w+)\s*=\s*(.*)$", line)
             if m:
@@ -362,6 +374,9 @@ def _strip_cython(src):
         line = re.sub(r"<\s*[\w.]+\s*>\s*", "", line)
         out.append(line)
     src = "\n".join(out)
+    src = re.sub(r"^(\s*)c?pdef\s+[\w.]+\s+(\w+\()", r"\1def \2", src, flags=re.M)
+    src = re.sub(r"^(\s*)cdef\s+[\w ]+?\s+(\w+\()", r"\1def \2", src, count=1, flags=re.M)
+    src = re.sub(r"\)\s*(?:nogil\s*)?except\s*[\w*?-]+\s*:", "):", src, count=1)
     # typed parameters in the signature:  (QobjEvo self, dict _args=None, double t)
     def fix_sig(m):
         sig = m.group(2)
@@ -369,7 +384,6 @@ def _strip_cython(src):
                      r"\2", sig)
         return m.group(1) + sig + m.group(3)
     src = re.sub(r"(def\s+\w+\()([^)]*)(\))", fix_sig, src, count=1, flags=re.S)
-    src = re.sub(r"^(\s*)c?pdef\s+[\w.]+\s+(\w+\()", r"\1def \2", src, flags=re.M)
     return src
 
 
@@ -383,7 +397,8 @@ def get_function(relpath, qualname, repo=None):
         if not m:
             raise Unsupported("class %s not found in %s" % (cls, relpath))
         body = text[m.end():]
-        mm = re.search(r"^    (?:def|cpdef\s+[\w.]+)\s+%s\(" % re.escape(meth), body, flags=re.M)
+        mm = re.search(r"^    (?:def|cpdef\s+[\w.]+|cdef\s+[\w ]+?)\s+%s\(" % re.escape(meth), body,
+                       flags=re.M)
         if not mm:
             raise Unsupported("method %s not found in %s" % (qualname, relpath))
         rest = body[mm.start():]
@@ -1063,6 +1078,134 @@ class Compiler:
             self.assign(out, self.v(st.name), "ENew")
         else:
             raise Unsupported("statement %s" % type(st).__name__)
+
+
+# ------------------------------------------------ restore-on-every-exit IR
+# functions that write to an argument temporarily (Model/C04_fin.v)
+FIN_FUNCS = [
+    ("QobjEvo._expect_dense", "qutip/core/cy/qobjevo.pyx", "QobjEvo._expect_dense"),
+]
+DISPLACE_KERNELS = {"column_stack_dense": "FDisplace", "column_unstack_dense": "FRestore"}
+# Tests whose value cannot change during the call for the tracked object: the
+# in-place kernels only rewrite `shape`; when a kernel is not applied in place
+# the variable is rebound to a new object and later kernels act on that one
+# (probe reshape_kernels)
+STABLE_ATTRS = ("fortran",)
+
+
+class FinCompiler:
+    def __init__(self, fn):
+        self.fn = fn
+        a = fn.args
+        self.params = [x.arg for x in a.posonlyargs + a.args]
+        self.tracked = {}
+        self.conds = {}
+
+    def cond(self, e):
+        if e is None:
+            return None
+        if isinstance(e, ast.Constant):
+            return "CTrue" if e.value is True else None
+        txt = ast.unparse(e)
+        if isinstance(e, ast.Attribute) and isinstance(e.value, ast.Name) \
+                and e.value.id in self.params and e.attr in STABLE_ATTRS:
+            if txt not in self.conds:
+                self.conds[txt] = len(self.conds)
+            return "(CVar %d)" % self.conds[txt]
+        raise Unsupported("in-place flag `%s` is not a stable condition" % txt)
+
+    def calls(self, node, out):
+        """one IR atom per call inside an expression, innermost first"""
+        if node is None:
+            return
+        for ch in ast.iter_child_nodes(node):
+            self.calls(ch, out)
+        if isinstance(node, ast.Call):
+            name = node.func.id if isinstance(node.func, ast.Name) else (
+                node.func.attr if isinstance(node.func, ast.Attribute) else None)
+            if name in DISPLACE_KERNELS:
+                inpl = None
+                for k in node.keywords:
+                    if k.arg == "inplace":
+                        inpl = k.value
+                c = self.cond(inpl)
+                tgt = node.args[0] if node.args else None
+                if c is not None:
+                    if not (isinstance(tgt, ast.Name) and tgt.id in self.params):
+                        raise Unsupported("in-place reshape of something that is not a parameter")
+                    self.tracked.setdefault(tgt.id, len(self.tracked))
+                    out.append("%s %s %d" % (DISPLACE_KERNELS[name], c, self.tracked[tgt.id]))
+                    return
+            out.append("FCall")
+        elif isinstance(node, (ast.Subscript, ast.Attribute, ast.BinOp)) and not out:
+            pass
+
+    def block(self, stmts):
+        if not stmts:
+            return "FSkip"
+        return "fseqs [%s]" % "; ".join(stmts) if len(stmts) > 1 else stmts[0]
+
+    def stmts(self, body, out):
+        for st in body:
+            self.stmt(st, out)
+
+    def stmt(self, st, out):
+        if isinstance(st, (ast.Assign, ast.AugAssign, ast.AnnAssign, ast.Expr, ast.Assert)):
+            if isinstance(st, ast.Expr) and isinstance(st.value, ast.Constant):
+                return
+            n0 = len(out)
+            self.calls(st, out)
+            if len(out) == n0:
+                out.append("FCall")          # attribute access / arithmetic may raise too
+        elif isinstance(st, ast.If):
+            c = None
+            try:
+                c = self.cond(st.test) if isinstance(st.test, ast.Attribute) else None
+            except Unsupported:
+                c = None
+            a, b = [], []
+            self.stmts(st.body, a)
+            self.stmts(st.orelse, b)
+            if c is not None and c != "CTrue":
+                out.append("FIfC %s (%s) (%s)" % (c, self.block(a), self.block(b)))
+            else:
+                self.calls(st.test, out)
+                out.append("FCall")
+                out.append("FIf (%s) (%s)" % (self.block(a), self.block(b)))
+        elif isinstance(st, (ast.For, ast.While)):
+            self.calls(st.iter if isinstance(st, ast.For) else st.test, out)
+            out.append("FCall")
+            body = []
+            self.stmts(st.body, body)
+            out.append("FLoop (%s)" % self.block(body))
+            self.stmts(st.orelse, out)
+        elif isinstance(st, ast.Try):
+            if st.handlers or st.orelse:
+                raise Unsupported("try with except/else clauses")
+            a, b = [], []
+            self.stmts(st.body, a)
+            self.stmts(st.finalbody, b)
+            out.append("FTry (%s) (%s)" % (self.block(a), self.block(b)))
+        elif isinstance(st, ast.Return):
+            self.calls(st.value, out)
+            out.append("FReturn")
+        elif isinstance(st, ast.Raise):
+            self.calls(st.exc, out)
+            out.append("FRaise")
+        elif isinstance(st, ast.Pass):
+            pass
+        else:
+            raise Unsupported("statement %s in a restore-on-exit function" % type(st).__name__)
+
+
+def translate_fin(fname, repo=None):
+    rel, qual = [(f[1], f[2]) for f in FIN_FUNCS if f[0] == fname][0]
+    fn = get_function(rel, qual, repo)
+    c = FinCompiler(fn)
+    out = []
+    c.stmts(fn.body, out)
+    return {"name": fname, "ident": "fin_" + re.sub(r"[^A-Za-z0-9]", "_", fname),
+            "term": c.block(out), "k": len(c.conds), "conds": c.conds, "tracked": c.tracked}
 
 
 def coq_ident(name, extra=()):
